@@ -741,9 +741,28 @@ func dominatedByCancelLoop(fn *ssa.Function, cs Site, b *ssa.BasicBlock) bool {
 
 // loopBodyAlways: every iteration of the loop headed by h passes an instruction satisfying hit.
 func loopBodyAlways(fn *ssa.Function, h *ssa.BasicBlock, hit func(ssa.Instruction) bool) bool {
+	// natural loop of h: blocks that reach a back edge of h without passing h
+	loop := map[*ssa.BasicBlock]bool{h: true}
+	var work []*ssa.BasicBlock
+	for _, pr := range h.Preds {
+		if h.Dominates(pr) && !loop[pr] {
+			loop[pr] = true
+			work = append(work, pr)
+		}
+	}
+	for len(work) > 0 {
+		b := work[len(work)-1]
+		work = work[:len(work)-1]
+		for _, pr := range b.Preds {
+			if !loop[pr] && h.Dominates(pr) {
+				loop[pr] = true
+				work = append(work, pr)
+			}
+		}
+	}
 	var body *ssa.BasicBlock
 	for _, sc := range h.Succs {
-		if reachesBlock(sc, h) && h.Dominates(sc) && sc != h {
+		if loop[sc] && sc != h {
 			body = sc
 		}
 	}
@@ -755,7 +774,7 @@ func loopBodyAlways(fn *ssa.Function, h *ssa.BasicBlock, hit func(ssa.Instructio
 		if hit(s.Instr) {
 			return false
 		}
-		if s.Block == h || isReturn(s.Instr) {
+		if s.Block == h || isReturn(s.Instr) || !loop[s.Block] {
 			ok = false
 			return false
 		}
